@@ -114,6 +114,22 @@ theorem sendRsp_spec (q : Pmc) (hno : ∀ r ∈ q.toRsp, r.dst ≠ none) :
       cases sent <;> simp
     · intro hr hp; exact h3 (by simp [hr]) hp
 
+theorem startMigration_spec {q : Pmc} {r : MigReq} (hc : q.cur = some r) (hh : q.handling = false) :
+    startMigration q = ({ q with
+          pending := (↑(r.size / unit) : Int),
+          toPull := q.toPull ++ (mkPulls q.self r.peer r.rd r.wr q.nid (r.size / unit)).map (·.1),
+          map := q.map ++ (mkPulls q.self r.peer r.rd r.wr q.nid (r.size / unit)).map (fun x => (x.1.id, x.2)),
+          nid := q.nid + r.size / unit, handling := true, dones := 0,
+          plog := q.plog ++ mkPulls q.self r.peer r.rd r.wr q.nid (r.size / unit) }, true) := by
+  unfold startMigration
+  simp [hc, hh]
+
+theorem startMigration_idle {q : Pmc} (h : q.cur = none ∨ q.handling = true) : startMigration q = (q, false) := by
+  unfold startMigration
+  rcases h with h | h
+  · simp [h]
+  · cases hc : q.cur <;> simp [h]
+
 /-! ### chunk tokens -/
 
 /-- what travels for one 64-byte chunk of a migration: the read request (as pull request or memory
